@@ -158,7 +158,7 @@ def bytes_cases(draw):
 
 @st.composite
 def string_cases(draw):
-    kind = draw(st.sampled_from(["alpha", "short", "mut-check", "mut-check", "mut-check", "valid", "raw", "bad-cksum-byte", "affix"]))
+    kind = draw(st.sampled_from(["alpha", "short", "mut-check", "mut-check", "mut-check", "valid", "raw", "bad-cksum-byte", "affix", "wrapped"]))
     if kind == "alpha":
         n = draw(st.integers(0, 180))
         s = bytes(draw(st.lists(st.sampled_from(list(ref.ALPHABET.encode())), min_size=n, max_size=n)))
@@ -179,6 +179,10 @@ def string_cases(draw):
         ch = bytes([draw(st.sampled_from(list(NEAR)))])
         s = base + ch if draw(st.booleans()) else ch + base
         return {"kind": kind, "s": hx(s), "base": hx(base), "kinds": ["affix:" + ("end" if s.startswith(base) else "start")]}
+    if kind == "wrapped":
+        # a valid encoding inside something longer: a payment-URI scheme, a label, quotes, another valid encoding in front
+        pre, post = draw(st.sampled_from([(b"bitcoin:", b""), (b":", b""), (b"1:", b""), (base[:3] + b":", b""), (b"", b"?amount=1"), (b'"', b'"'), (b"<", b">"), (b"addr=", b""), (b"", b","), (base + b" ", b""), (base + b":", b"")]))
+        return {"kind": kind, "s": hx(pre + base + post), "base": hx(base), "kinds": ["wrapped"]}
     if kind == "bad-cksum-byte":
         # exactly one of the four checksum bytes altered, re-encoded: in-alphabet, invalid by construction
         ck = bytearray(ref.checksum(payload))
